@@ -42,6 +42,25 @@ type Env struct {
 	boundEnv  *Env
 }
 
+// ukey: a key that is unique per calling context (the printable ctx is built from function *names*, which methods of
+// different types share — SetNewGasConfig.t3 of one type is not SetNewGasConfig.t3 of another).
+func (e *Env) ukey() string {
+	if e == nil {
+		return ""
+	}
+	k := fmt.Sprintf("%p", e.Fn)
+	if e.Call != nil {
+		k += fmt.Sprintf("@%p", e.Call)
+	}
+	if e.closure != nil {
+		k += fmt.Sprintf("^%p", e.closure)
+	}
+	if e.boundRecv != nil {
+		k += fmt.Sprintf("~%p", e.boundRecv)
+	}
+	return e.Parent.ukey() + "/" + k
+}
+
 // defining: the env in which the free variables of this literal are bound.
 func (e *Env) defining() *Env {
 	if e.defEnv != nil {
@@ -1349,7 +1368,7 @@ func (e *Env) inlineResult(call *ssa.Call, i int) (ssa.Value, *Env) {
 			return nil, nil
 		}
 	}
-	key := inlineKey{e.ctx, call, i}
+	key := inlineKey{e.ukey(), call, i}
 	if r, ok := inlineCache[key]; ok {
 		return r.v, r.e
 	}
